@@ -435,9 +435,31 @@ func C06(c *core.Ctx) {
 	for _, st := range storesToField(a.newRx, timeoutF) {
 		c.Check("R4", "retention-factors", st.Pos(), core.MentionsField(st.Val, "RetransTimeout", 0) && core.MentionsField(st.Val, "MaxRetrans", 0),
 			"retention is computed from the configured retransmission timeout and the maximum number of retransmissions")
-		if mul, ok := st.Val.(*ssa.BinOp); ok && mul.Op == token.MUL {
-			c.Check("R4", "retention-shape", st.Pos(), true, "retention = timeout x (max retransmissions + k)")
+		// the peer retransmits up to MaxRetrans times, one RetransTimeout apart: the response has to be kept for
+		// RetransTimeout x (MaxRetrans + 1) so that the last retransmission still finds it — evaluated as a
+		// polynomial in the two configured values, whatever way the product is written
+		pl, ok := polyOf(st.Val, func(v ssa.Value) string {
+			if _, names := core.FieldPath(v); len(names) > 0 {
+				switch names[len(names)-1] {
+				case "RetransTimeout":
+					return "T"
+				case "MaxRetrans":
+					return "N"
+				}
+			}
+			return ""
+		}, 0)
+		covers := ok && pl["N*T"] >= 1 && pl["T"] >= 1
+		for _, cf := range pl {
+			if cf < 0 {
+				covers = false
+			}
 		}
+		how := "not a polynomial in the two configured values"
+		if ok {
+			how = "T = RetransTimeout, N = MaxRetrans: " + pl.String()
+		}
+		c.Check("R4", "retention-covers-retries", st.Pos(), covers, "the response is retained for at least RetransTimeout x (MaxRetrans + 1), the time in which the peer's retransmissions arrive ("+how+")")
 	}
 	// event loop RX arm + delete
 	checkTimeoutArm(c, "R4", a, "RxTransaction", a.rxTrans)
